@@ -1102,7 +1102,16 @@ func (w *World) expectedDesc(x *MMan, d string) descJSON {
 }
 
 func (w *World) descTooBig(x *MMan, d string, limit int64) bool {
-	doc := map[string]any{"schemaVersion": 2, "mediaType": mtOCIIndex, "manifests": []descJSON{w.expectedDesc(x, d)}}
+	e := w.expectedDesc(x, d)
+	if x.untyped {
+		// whichever reading of the type is the longer one
+		for mt := range x.mts {
+			if len(mt) > len(e.MediaType) {
+				e.MediaType = mt
+			}
+		}
+	}
+	doc := map[string]any{"schemaVersion": 2, "mediaType": mtOCIIndex, "manifests": []descJSON{e}}
 	b, _ := json.Marshal(doc)
 	return int64(len(b)) > limit
 }
